@@ -23,6 +23,9 @@ type Gen struct {
 	// Plain: SetPath fills the leaf with an ordinary generated value instead of an extreme
 	// one (normal stream: every optional leaf of every kind gets exercised regularly)
 	Plain bool
+	// Blank (1..4): SetPath turns the collection holding the leaf into a single-entry collection with an
+	// empty / whitespace-only key (1, 2) or value (3, 4)
+	Blank int
 }
 
 func (g *Gen) chance(num, den int) bool { return g.R.Intn(den) < num }
@@ -377,6 +380,10 @@ func (g *Gen) Value(t reflect.Type, ti TagInfo, depth int) interface{} {
 			eti.Format = strings.TrimSuffix(ti.Format, "-array")
 		}
 		l := make([]interface{}, 0, n+1)
+		if t.Elem().Kind() == reflect.String && eti.Format == "" && g.chance(1, 8) {
+			// single-entry / all-blank collections: empty and whitespace-only strings
+			return []interface{}{g.pick("", " ", "\t", "  ")}
+		}
 		for i := 0; i < n; i++ {
 			if t.Elem().Kind() == reflect.Ptr && g.chance(1, 40) {
 				l = append(l, nil)
@@ -393,6 +400,27 @@ func (g *Gen) Value(t reflect.Type, ti TagInfo, depth int) interface{} {
 		m := map[string]interface{}{}
 		if t.Key().Kind() != reflect.String {
 			return m // maps with non-string keys are only generated empty
+		}
+		if g.chance(1, 6) {
+			// single-entry maps with an empty / whitespace-only key or value
+			var val interface{} = g.Value(t.Elem(), TagInfo{Name: ti.Name}, depth+1)
+			key := g.pick("X-Test", "id1", "a")
+			switch g.R.Intn(4) {
+			case 0:
+				key = ""
+			case 1:
+				key = " "
+			case 2:
+				if t.Elem().Kind() == reflect.String {
+					val = ""
+				}
+			default:
+				if t.Elem().Kind() == reflect.String {
+					val = " "
+				}
+			}
+			m[key] = val
+			return m
 		}
 		for i := 0; i < n; i++ {
 			k := g.pick("X-Test", "x-id", "Content-Type", "a", "b", "p1", "id1", "example.com")
@@ -720,7 +748,7 @@ func (g *Gen) extreme(t reflect.Type, ti TagInfo) interface{} {
 		case strings.Contains(n, "policy") || strings.Contains(n, "mode") || strings.Contains(n, "type") || strings.Contains(n, "algorithm"):
 			return g.pick("", "bogus", "x")
 		}
-		opts := []string{"", "(", "0s", "-1s", "x", "abc", "END", "deflate", "{{", "a b", "1h"}
+		opts := []string{"", "", " ", "(", "0s", "-1s", "x", "abc", "END", "end", "deflate", "{{", "a b", "1h"}
 		return opts[g.R.Intn(len(opts))]
 	case reflect.Bool:
 		return g.chance(1, 2)
@@ -801,6 +829,12 @@ func (g *Gen) SetPath(doc map[string]interface{}, t reflect.Type, path []PathSte
 					}
 				}
 				idx := g.R.Intn(len(l))
+				if last && g.Blank > 0 {
+					if set != nil {
+						set([]interface{}{[]string{"", " ", "", "\t"}[(g.Blank-1)%4]})
+					}
+					return
+				}
 				if last {
 					l[idx] = g.extreme(et, TagInfo{Name: ti.Name})
 					return
@@ -826,7 +860,49 @@ func (g *Gen) SetPath(doc map[string]interface{}, t reflect.Type, path []PathSte
 				}
 				sort.Strings(ks)
 				k := ks[g.R.Intn(len(ks))]
+				if last && g.Blank > 0 {
+					for kk := range m {
+						delete(m, kk)
+					}
+					var val interface{} = "secret1"
+					if et.Kind() != reflect.String {
+						val = g.Value(et, TagInfo{Name: ti.Name}, 3)
+					}
+					switch g.Blank {
+					case 1:
+						m[""] = val
+					case 2:
+						m[" "] = val
+					case 3:
+						m["AKID"] = ""
+					default:
+						m["AKID"] = " "
+					}
+					if et.Kind() != reflect.String && g.Blank >= 3 {
+						m["AKID"] = val
+					}
+					return
+				}
 				if last {
+					if !g.Plain && g.chance(1, 2) {
+						// a single entry with an empty / blank key or value
+						for kk := range m {
+							delete(m, kk)
+						}
+						switch g.R.Intn(3) {
+						case 0:
+							m[g.pick("", " ")] = g.Value(et, TagInfo{Name: ti.Name}, 3)
+						case 1:
+							m["AKID"] = g.extreme(et, TagInfo{})
+						default:
+							if et.Kind() == reflect.String {
+								m["AKID"] = g.pick("", " ")
+							} else {
+								m["AKID"] = g.extreme(et, TagInfo{Name: ti.Name})
+							}
+						}
+						return
+					}
 					m[k] = g.extreme(et, TagInfo{Name: ti.Name})
 					return
 				}
@@ -904,4 +980,71 @@ func (g *Gen) GenAdvDoc(it AdvItem) map[string]interface{} {
 	}
 	g.SetPath(doc, t, it.Path)
 	return doc
+}
+
+// NearMiss returns a near-miss spelling of a cross-reference or reserved word:
+// case variants, leading / trailing blanks, a strict prefix, an extension.
+func (g *Gen) NearMiss(name string) string {
+	if name == "" {
+		return g.pick(" ", "end", "END ")
+	}
+	if g.chance(1, 3) { // case variants first: lower, Title, upper - whichever differs
+		for _, c := range []string{strings.ToLower(name), strings.ToUpper(name[:1]) + strings.ToLower(name[1:]), strings.ToUpper(name)} {
+			if c != name && g.chance(2, 3) {
+				return c
+			}
+		}
+	}
+	switch g.R.Intn(8) {
+	case 0:
+		return strings.ToLower(name)
+	case 1:
+		return strings.ToUpper(name)
+	case 2: // flip the case of one letter
+		b := []byte(name)
+		i := g.R.Intn(len(b))
+		switch {
+		case b[i] >= 'a' && b[i] <= 'z':
+			b[i] -= 32
+		case b[i] >= 'A' && b[i] <= 'Z':
+			b[i] += 32
+		}
+		return string(b)
+	case 3:
+		return " " + name
+	case 4:
+		return name + " "
+	case 5:
+		return name[:len(name)-1]
+	case 6:
+		return name + g.pick("1", "x", "-", ".")
+	default:
+		if len(name) > 1 {
+			return name[1:]
+		}
+		return name + name
+	}
+}
+
+var blankPlan []AdvItem
+
+// BlankPlan lists the collection leaves (elements of string lists, values of string maps) of all kinds.
+func BlankPlan() []AdvItem {
+	if blankPlan != nil {
+		return blankPlan
+	}
+	for _, it := range AdvPlan() {
+		if n := len(it.Path); n > 0 && it.Path[n-1].Elem {
+			blankPlan = append(blankPlan, it)
+		}
+	}
+	return blankPlan
+}
+
+// GenBlankDoc: a valid template of the kind whose collection at the plan item holds a single
+// entry with an empty / whitespace-only key or value (variant 1..4).
+func (g *Gen) GenBlankDoc(it AdvItem, variant int) map[string]interface{} {
+	g.Blank = variant
+	defer func() { g.Blank = 0 }()
+	return g.GenAdvDoc(it)
 }
